@@ -52,9 +52,11 @@ class PassModel(FakeCircuit):
 
     def dfs(self, start_gates=None, *, inverse=False, on_enter_hook=None, on_discover_hook=None, on_exit_hook=None, unvisited_hook=None,
             on_traversal_end_hook=None, topsort_unvisited=False):
-        if inverse:
-            raise AnalysisError('pass uses an inverse traversal: oracle model does not cover it')
         states, seen = {}, []
+
+        def nexts(l):
+            # towards the operands, or (inverse) towards the users
+            return self._gates[l].operands if not inverse else list(dict.fromkeys(self._gate_to_users.get(l, [])))
 
         def visit(l):
             if l in states:
@@ -62,7 +64,7 @@ class PassModel(FakeCircuit):
             states[l] = 'ENTERED'
             if on_enter_hook:
                 on_enter_hook(self._gates[l], states)
-            for o in self._seq(self._gates[l].operands):
+            for o in self._seq(nexts(l)):
                 if on_discover_hook:
                     on_discover_hook(self._gates[o], states)
                 visit(o)
@@ -70,7 +72,7 @@ class PassModel(FakeCircuit):
             seen.append(l)
             if on_exit_hook:
                 on_exit_hook(self._gates[l], states)
-        for l in self._seq(start_gates if start_gates is not None else self._outputs):
+        for l in self._seq(start_gates if start_gates is not None else (self._outputs if not inverse else self._inputs)):
             visit(l)
         if unvisited_hook:
             rest = list(self.top_sort(inverse=True)) if topsort_unvisited else [self._gates[l] for l in self._seq(self._gates)]
@@ -314,11 +316,12 @@ def check_result(c: PassModel, new, key, before):
     return probs
 
 
-def post_problems(P: Passes, c: PassModel, new: PassModel, key):
-    """Stated post-conditions (C18)."""
+def post_problems(P: Passes, c: PassModel, new: PassModel, key, literal=False):
+    """Stated post-conditions (C18).  `literal`: `new` is the result of the public entry point (`transform`, with the
+    pre-/post-passes the class declares): the post-condition must hold for it as it stands."""
     probs = []
     name = key.split('(')[0]
-    if name == 'RemoveRedundantGates':
+    if name == 'RemoveRedundantGates' and not literal:
         want = c.reachable() | (set() if '(' in key else set(c._inputs))
         if set(new._gates) != want:
             probs.append(f'gates {sorted(new._gates)} instead of exactly the reachable ones {sorted(want)}')
@@ -332,10 +335,13 @@ def post_problems(P: Passes, c: PassModel, new: PassModel, key):
         return probs
     # merging passes state their post-condition after the implied RemoveRedundantGates
     new.order = c.order
-    try:
-        fin = P.run('RemoveRedundantGates', new)
-    except InterpRaise as e:
-        return [f'implied RemoveRedundantGates raises {e.exc_name}']
+    if literal:
+        fin = new
+    else:
+        try:
+            fin = P.run('RemoveRedundantGates', new)
+        except InterpRaise as e:
+            return [f'implied RemoveRedundantGates raises {e.exc_name}']
     if name == 'MergeDuplicateGates':
         seen = {}
         for l, g in fin._gates.items():
@@ -543,6 +549,9 @@ def _propagate(clauses, assign):
 TRANSFORMER = 'cirbo.core.circuit.transformer'
 
 
+LITERAL = {'MergeDuplicateGates().transform(c)': 'MergeDuplicateGates', 'MergeEquivalentGates().transform(c)': 'MergeEquivalentGates', 'MergeUnaryOperators().transform(c)': 'MergeUnaryOperators'}
+
+
 def fold_pipelines(ck: Checker, R: str):
     """Every way of running several passes -- `cleanup` (light / heavy), `P.transform`, `Transformer.apply_transformers`
     on a list, the pipe operator (nested, mixed with lists), lists with repeated idempotent passes -- gives the circuit
@@ -593,12 +602,17 @@ def fold_pipelines(ck: Checker, R: str):
         ('cleanup(c, use_heavy=True)', lambda P, c: cleanup(c, use_heavy=True), lambda P: [P['RRG'], P['MUO'], P['MDG'], P['MEG']]),
         ('MergeDuplicateGates().transform(c)', lambda P, c: it.getattr(tm, None, P['MDG'], 'transform')(c), lambda P: [P['MDG']]),
         ('MergeEquivalentGates().transform(c)', lambda P, c: it.getattr(tm, None, P['MEG'], 'transform')(c), lambda P: [P['MEG']]),
+        ('MergeUnaryOperators().transform(c)', lambda P, c: it.getattr(tm, None, P['MUO'], 'transform')(c), lambda P: [P['MUO']]),
         ('RemoveRedundantGates(allow_inputs_removal=True).transform(c)', lambda P, c: it.getattr(tm, None, P['RRGi'], 'transform')(c), lambda P: [P['RRGi']]),
         ('apply_transformers(c, [MUO, MDG])', lambda P, c: apply_t(c, [P['MUO'], P['MDG']]), lambda P: [P['MUO'], P['MDG']]),
         ('(MUO | MDG).transform(c)', lambda P, c: it.getattr(tm, None, P['MUO'] | P['MDG'], 'transform')(c), lambda P: [P['MUO'], P['MDG']]),
         ('(RRG | (MDG | MUO)).transform(c)', lambda P, c: it.getattr(tm, None, P['RRG'] | (P['MDG'] | P['MUO']), 'transform')(c), lambda P: [P['RRG'], P['MDG'], P['MUO']]),
         ('apply_transformers(c, [MDG | MUO, MEG])', lambda P, c: apply_t(c, [P['MDG'] | P['MUO'], P['MEG']]), lambda P: [P['MDG'], P['MUO'], P['MEG']]),
         ('apply_transformers(c, [RRG, RRG, RRGi, RRG])', lambda P, c: apply_t(c, [P['RRG'], P['RRG'], P['RRGi'], P['RRG']]), lambda P: [P['RRG'], P['RRG'], P['RRGi'], P['RRG']]),
+        # repeated passes that do not declare themselves idempotent must really run twice; distinct compositions are distinct
+        ('apply_transformers(c, [MUO, MUO, MDG, MDG])', lambda P, c: apply_t(c, [P['MUO'], P['MUO'], P['MDG'], P['MDG']]), lambda P: [P['MUO'], P['MUO'], P['MDG'], P['MDG']]),
+        ('apply_transformers(c, [MEG, MEG])', lambda P, c: apply_t(c, [P['MEG'], P['MEG']]), lambda P: [P['MEG'], P['MEG']]),
+        ('apply_transformers(c, [MUO | MDG, RRGi | MEG])', lambda P, c: apply_t(c, [P['MUO'] | P['MDG'], P['RRGi'] | P['MEG']]), lambda P: [P['MUO'], P['MDG'], P['RRGi'], P['MEG']]),
         ('apply_transformers(c, MUO | RRGi)', lambda P, c: apply_t(c, P['MUO'] | P['RRGi']), lambda P: [P['MUO'], P['RRGi']]),
         # a pass whose declared post-pass has dependencies of its own (they must be implied too)
         ('MUO with post-pass MDG: transform(c)', lambda P, c: (P['MUO']._d.__setitem__('_post_transformers', (P['MDG'],)), it.getattr(tm, None, P['MUO'], 'transform')(c))[1],
@@ -630,6 +644,11 @@ def fold_pipelines(ck: Checker, R: str):
                 continue
             if not isinstance(got, FakeCircuit) or got.struct() != want.struct():
                 probs.append(f'result {got.struct() if isinstance(got, FakeCircuit) else got!r} differs from applying the constituent passes one after another ({want.struct()}) on {desc}')
+            elif name in LITERAL:
+                # the stated effect of the pass, on what its public entry point returns
+                pp = post_problems(None, c, got, LITERAL[name], literal=True)
+                if pp:
+                    probs.append(f'{pp[0]} in the result of the public entry point on {desc}')
             if len(probs) > 2:
                 break
         ck.check(not probs, R, tm if 'cleanup' not in name else cl, (cl.func('cleanup') if 'cleanup' in name else tm.func('Transformer.apply_transformers')),
